@@ -298,7 +298,10 @@ def main(argv=None):
                 undecided.append(f"{full}: solver answered unknown ({o['unknown']})")
                 continue
             # sat: counter-model. replayed?
-            confirmed = next((rp for rp in o["replays"] if rp.get("failed")), None)
+            # a replay confirms a postcondition obligation when it fails THAT clause (another clause failing on the same input is
+            # that clause's business); obligations raised on the way (no-raise, invariants, frames) are confirmed by any failing clause
+            own_clause = name if name.startswith(("post.", "raises[")) else None
+            confirmed = next((rp for rp in o["replays"] if rp.get("failed") and (own_clause is None or any(own_clause == f or own_clause in str(f) for f in rp["failed"]))), None)
             if confirmed is None and o.get("imprecise"):
                 # every failing path went through a loop cut without invariant (over-approximation): not a verdict
                 undecided.append(f"{full}: fails only on over-approximated paths (loop without invariant, uninterpreted library model) and no replay confirms it")
